@@ -165,7 +165,13 @@ def base_docs(thorough):
         d = corpus.build_ok(e, {})
         if d is not None:
             loops = sorted(set(lp[-1][0].rsplit('/', 1)[-1] for lp in d.lpaths if len(lp) > 3))
-            out.append(('min:' + e[4], d.text(eol='\n'), loops[:1] or ['ST_LOOP']))
+            out.append(('min:' + e[4], d.text(eol='\n'), loops[:4] or ['ST_LOOP']))
+        if e[4] in ('997.4010.xml', '999.5010.xml'):
+            # the acknowledgement maps name loops like segments (AK2, AK3): a document that has them, read with each of them
+            d = corpus.build_ok(e, {'all': True})
+            if d is not None:
+                loops = sorted(set(lp[-1][0].rsplit('/', 1)[-1] for lp in d.lpaths if len(lp) > 3))
+                out.append(('all:' + e[4], d.text(eol='\n'), loops[:6] or ['ST_LOOP']))
     for lab, txt, info in corpus.suite_docs():
         if (thorough and len(txt) <= 3200) or len(txt) <= 700:
             out.append((lab, txt, ['2300'] if '837' in lab or 'simple' in lab else ['ST_LOOP']))
@@ -364,5 +370,5 @@ def run(R):
                 'mapkeys': 'one skeleton interchange per entry of maps.xml (%d), sinks {none, all} x charset {B,E}, context reader with None / ISA_LOOP / GS_LOOP / ST_LOOP' % len(ITEMS['mapkeys']),
                 'mut2': 'every pair of structural mutations (first in delete/duplicate/swap/truncate/insert-orphan/bare/retag, second in delete/duplicate/bare/bad count/orphan header or trailer) of three minimal documents' if R.thorough else 'not run in quick'}
     R.assumptions = ['documented refusals: X12Error iff the reference finds an ISA that is not well formed; EngineError "Map not found" iff the (ISA12, GS08, GS01[, BHT02]) key is absent from my reading of maps.xml',
-                     'the context reader is driven with loop id None and one loop id occurring in the document']
+                     'the context reader is driven with loop id None and up to four (acknowledgement maps: six) loop ids occurring in the document']
     return R.finish(LEVEL, 'one text per execution through three entry points; distinct = (family, mutation operator)', exhaustive=True)
